@@ -51,6 +51,11 @@ def cases(tier, seed, i, n):
                         if tier == 'quick' and size > 70000 and k % 3:
                             continue
                         yield dict(kind='sim', tls=tls, size=size, shape=shape, rec=rec, short=short, nb=2 if shape != 'ends-with-empty' else 4, seed=k)
+        for tls in (False, True):
+            for size in (300, 20000, 70000):
+                for pf in ('pipe', 'timeout', 'reset'):
+                    k += 1
+                    yield dict(kind='sim', tls=tls, size=size, shape='many-small', rec=16384 if tls else None, short=None, nb=2, seed=k, pongfault=pf)
         for via in ('https-proxy', 'http-proxy'):
             for size in (1000, 16384, 20000, 70000):
                 for shape in ('one-message', 'many-small', 'ends-with-empty'):
@@ -193,6 +198,11 @@ def run_case(case, acc):
         factory = lambda _i: simnet.ScriptServer([('proxy', b'HTTP/1.1 200 Connection established\r\n\r\n'), ('hs', {})] + steps)   # noqa
     w = H.World(factory, horizon=horizon, stop_at=horizon, tls_records=case.get('rec'), tls_short=case.get('short'),
                 budget=400000)
+    if case.get('pongfault'):
+        # the write of the first automatic Pong fails (the peer has sent its last batch and gone away, or the send
+        # buffer is full): says nothing about what has been RECEIVED - everything available is still delivered
+        w.frame_faults = {10: case['pongfault']}
+        acc.count2('oracle', 'pong_write_fault_runs')
     ws0 = None
     if case['seed'] % 4 == 1:
         w0 = H.World(factory if via else H.hs_server([('raw', F(2, b'x' * 20000)[:9000]), ('eof',)]), tls_records=case.get('rec'), tls_short=case.get('short'))
@@ -227,7 +237,7 @@ def run_case(case, acc):
                     key = 'message-delivered-later-than-its-last-byte-arrived'
                     detail.update(event=ev[0], delivered_at=t, available_at=bursts[b][0])
                     break
-        if key is None:
+        if key is None and not case.get('pongfault'):
             # automatic pongs written at the instant their ping arrived
             ping_times = [bursts[b][0] for e, b in expected if e[0] == 'ping']
             pong_times = []
